@@ -2,6 +2,7 @@ package impl
 
 import (
 	"fmt"
+	"reflect"
 	"strconv"
 
 	"github.com/vektah/gqlparser/v2/ast"
@@ -69,6 +70,40 @@ func init() {
 		sx := Sx{Src: func(s *ast.Source) int { return idx[s] }}
 		sx.SchemaDoc(doc)
 		return sx.String()
+	}
+	// pqhist <q|s> <limit of the earlier parse> <hex earlier text> <limit> <hex text>: an earlier parse under a
+	// limit (its result is dropped), then the text under <limit> (a limit that is not reached) compared
+	// with the unlimited parse of the same *ast.Source by reflect.DeepEqual — positions AND comment
+	// groups included, which the wire format of the other ops leaves out
+	Ops["pqhist"] = func(a []string) string {
+		var l0, l1 int
+		fmt.Sscan(a[1], &l0)
+		fmt.Sscan(a[3], &l1)
+		b0, _ := UnhexW(a[2])
+		b1, _ := UnhexW(a[4])
+		src := &ast.Source{Input: string(b1), Name: "doc"}
+		if a[0] == "q" {
+			_, _ = parser.ParseQueryWithTokenLimit(&ast.Source{Input: string(b0), Name: "earlier"}, l0)
+			d1, e1 := parser.ParseQueryWithTokenLimit(src, l1)
+			d2, e2 := parser.ParseQuery(src)
+			if (e1 == nil) != (e2 == nil) {
+				return "verdict-differs"
+			}
+			if e1 == nil && !reflect.DeepEqual(d1, d2) {
+				return "tree-differs " + HexW([]byte(ast.Dump(d1))) + " " + HexW([]byte(ast.Dump(d2)))
+			}
+			return "same"
+		}
+		_, _ = parser.ParseSchemaWithLimit(&ast.Source{Input: string(b0), Name: "earlier"}, l0)
+		d1, e1 := parser.ParseSchemaWithLimit(src, l1)
+		d2, e2 := parser.ParseSchema(src)
+		if (e1 == nil) != (e2 == nil) {
+			return "verdict-differs"
+		}
+		if e1 == nil && !reflect.DeepEqual(d1, d2) {
+			return "tree-differs " + HexW([]byte(ast.Dump(d1))) + " " + HexW([]byte(ast.Dump(d2)))
+		}
+		return "same"
 	}
 	// goquote <hex>: strconv.Quote
 	Ops["goquote"] = func(a []string) string {
